@@ -900,6 +900,7 @@ def _refresh_elementwise_output_shape(node: ir.Node) -> None:
     src = _elementwise_shape_source(ins)
     if src is None:
         return
+    previous_shape = outs[0].shape
     if node.op_type in {"Cast", "CastLike", "Not"}:
         # These ops can change dtype; keep existing dtype metadata untouched.
         _copy_shape_only(outs[0], src)
@@ -917,6 +918,11 @@ def _refresh_elementwise_output_shape(node: ir.Node) -> None:
         candidate_shapes.append(dims)
     merged = _broadcast_shape_dims(candidate_shapes)
     if merged is None:
+        if len(candidate_shapes) > 1:
+            # The broadcast of the operands cannot be derived here (e.g. two
+            # unrelated symbolic dims).  One operand's shape is not the result's
+            # shape, so keep the annotation the output already had.
+            outs[0].shape = previous_shape
         return
     out = outs[0]
     if _shape_dims_key(out.shape) == _shape_dims_key(merged):
